@@ -226,7 +226,7 @@ func (c *Canvas) DrawText(texts []backend.TextDrawing) {
 }
 
 func (c *Canvas) DrawRasterImage(image backend.RasterImage, width, height fl) {
-	c.ev(Ev{Op: "DrawRasterImage", N: f64(width, height), S: []string{image.MimeType, image.Rendering}})
+	c.ev(Ev{Op: "DrawRasterImage", N: f64(width, height), S: []string{image.MimeType, image.Rendering}, I: []int{image.ID}})
 }
 
 func (c *Canvas) DrawGradient(g backend.GradientLayout, width, height fl) {
